@@ -1244,8 +1244,9 @@ func main() {
 	distinct := lib.NewDistinct()
 	na := partA(f, res, d, distinct)
 	nb := partB(f, res, d, distinct, work)
+	nh := partH(f, res, distinct, work)
 	d.Close()
-	res.DistinctNontrivial = na + nb
+	res.DistinctNontrivial = na + nb + nh
 	res.Exhaustive = false
 	res.Rule = "part (a): every sequence (with repetition) of at most N headers over the universe {m, m@2019-01-01, m@2020-01-01, " +
 		"m with both, n, n@2020-01-01, submodules s, s@2019-01-01, s with both, submodule m, and two names with '@': m@2020-01-01 without revision, m@x with revision (+2 more in the thorough tier)}, N = registry_max_enumerated_length, " +
@@ -1255,7 +1256,12 @@ func main() {
 		"every subset of {foo.yang, older, newer} in each of current directory, d1, d2 in both path orders, every subset of {exact, dated} in each of r, r/a, r/a/k, r/z under `r/...`, " +
 		"the layouts of pkg/yang/testdata/find-file-test, plus seeded random trees (depth <= 3, names from a pool of 30 file and 10 directory names, shuffled listing order) with " +
 		"random AddPath arguments (existing and missing directories, regular files, `...` suffixes, colon lists), optional PathsWithModules and 1-2 Reads. " +
-		"distinct_nontrivial = distinct driver requests whose loads contain two headers of one kind and name (a), or whose tree holds two candidates or a candidate and a near miss (b)"
+		"part (b), histories on one Modules value (lookup = Read / FindModule with or without revision-date / GetModule / Process with an unsatisfied import; every lookup of a module that is not loaded is compared with the model and the specification " +
+		"on the layout and ms.Path as they are at that moment, and with the same lookup on a fresh Modules value with the same Path): {4 path setups: AddPath d1 d2 / AddPath d1/... d2 / ms.Path assigned / colon list with near misses} x first lookup of foo (6 kinds, fails) x " +
+		"{11 changes: foo.yang or dated candidates written into d1, d2, the current directory, a new subdirectory below a `...` entry; a new directory appended or assigned to ms.Path directly, or given to AddPath; AddPath of d1 again; an older candidate in the earlier directory; written and removed again} x second lookup (6 kinds; quick tier: all pairs of kinds for the first setup, equal kinds for the others); " +
+		"{any subset of foo candidates in each of d1, d2} x first lookup of another name (bar: fails, foobar: succeeds) x {nothing, each present candidate removed, each absent one written} x lookup of foo; the two histories of the demonstration of seeded change C13-j22; " +
+		"seeded random histories: random tree, 0-2 AddPath, 2-4 rounds of 0-3 changes (candidate or near miss written - preferably for a name asked for before -, file removed, new directory with a candidate put on the path by AddPath or by appending to ms.Path, AddPath of new or repeated arguments, ms.Path appended/assigned) and one lookup of foo, bar, foobar, fo (or Read of foo@2020-01-01). " +
+		"distinct_nontrivial = distinct driver requests whose loads contain two headers of one kind and name (a), or whose tree holds two candidates or a candidate and a near miss (b), or distinct history prefixes ending in a lookup that follows an earlier lookup and at least one change of layout or path (histories)"
 	res.Write(f.Out)
 }
 
@@ -1269,6 +1275,7 @@ func replay(f *lib.Flags, d *lib.Driver, work string) int {
 			Replay struct {
 				Registry *regCase  `json:"registry"`
 				File     *fileCase `json:"file"`
+				History  *histCase `json:"history"`
 			} `json:"replay"`
 		} `json:"disagreement"`
 	}
@@ -1339,6 +1346,8 @@ func replay(f *lib.Flags, d *lib.Driver, work string) int {
 				rc = 1
 			}
 		}
+	case r.History != nil:
+		rc = replayHistory(d, work, *r.History)
 	default:
 		lib.Fatal("nothing to replay in %s", f.Replay)
 	}
